@@ -1,7 +1,9 @@
 package main
 
 import (
+	"encoding/json"
 	"fmt"
+	"github.com/nyaruka/goflow/flows"
 	"strconv"
 	"strings"
 	"time"
@@ -25,6 +27,15 @@ type stubQueryable struct {
 
 func (s *stubQueryable) QueryProperty(env envs.Environment, key string, pt contactql.PropertyType) []any {
 	return s.vals[key]
+}
+
+// values by property type and key
+type typedStub struct {
+	vals map[string][]any
+}
+
+func (s *typedStub) QueryProperty(env envs.Environment, key string, pt contactql.PropertyType) []any {
+	return s.vals[string(pt)+":"+key]
 }
 
 type qtree struct {
@@ -413,6 +424,105 @@ func c15Totality(c *Ctx, resolver contactql.Resolver) {
 					panicked := c.Guard("M5-total", "panic:EvaluateQuery", map[string]any{"text": text, "contact_has_values": qi == 0}, func() { contactql.EvaluateQuery(env, q, qb) })
 					c.Eval(fmt.Sprintf("M5|%s|%s|%d|%v", key(p), op, qi, panicked))
 					c.Count("check:M5-total")
+				}
+			}
+		}
+	}
+	// ---- M7: a field may have the key of an attribute or of a URN scheme; conditions on the two are different conditions ----
+	{
+		flds := []assets.Field{static.NewField("l", "language", "Language", assets.FieldTypeText), static.NewField("t", "tel", "Tel", assets.FieldTypeText),
+			static.NewField("n", "name", "Name", assets.FieldTypeText)}
+		res := contactql.NewMockResolver(flds, nil, nil)
+		qb := &typedStub{vals: map[string][]any{"attr:language": {"fra"}, "field:language": {"eng"}, "attr:name": {"Ann"}, "field:name": {"Bob"},
+			"urn:tel": {"+12065550100"}, "field:tel": {"none"}}}
+		for _, tc := range []struct {
+			text string
+			want bool
+		}{{`language = fra AND fields.language = fra`, false}, {`language = fra OR fields.language = fra`, true}, {`fields.language = eng OR language = eng`, true},
+			{`fields.language = eng AND language = eng`, false}, {`language = fra AND language = fra`, true}, {`name = Ann AND fields.name = Ann`, false},
+			{`fields.name = Bob OR name = Bob`, true}, {`tel = none OR fields.tel = none`, true}, {`urns.tel = none AND fields.tel = none`, false},
+			{`(language = fra AND fields.language = fra) OR name = x`, false}, {`language != eng AND fields.language != eng`, false}} {
+			desc := map[string]any{"query": tc.text, "attribute language": "fra", "field language": "eng", "attribute name": "Ann", "field name": "Bob", "urn tel": "+12065550100", "field tel": "none"}
+			var q *contactql.ContactQuery
+			var err error
+			var got bool
+			if c.Guard("M7-same-key", "panic:%site%", desc, func() {
+				q, err = contactql.ParseQuery(env, tc.text, res)
+				if err == nil {
+					got = contactql.EvaluateQuery(env, q, qb)
+				}
+			}) || err != nil {
+				continue
+			}
+			c.Count("check:M7-same-key")
+			c.Eval("M7|" + tc.text)
+			if got != tc.want {
+				desc["result"], desc["expected"], desc["parsed_as"] = got, tc.want, q.String()
+				c.Fail("monitor", "M7-same-key", "conditions-on-same-key-confused", "conditions on an attribute (or URN scheme) and on a field of the same key were not evaluated as the two conditions they are", desc)
+			}
+		}
+	}
+	// ---- M6: real contacts as the thing queried: a typed field whose stored value has only a text part has no value ----------
+	if sa, err := contactAssets(env, ""); err == nil {
+		type fv struct {
+			json  string
+			typed bool
+		}
+		ages := []fv{{"", false}, {`"age": {"text": "old"}`, false}, {`"age": {"text": "39", "number": 39}`, true}, {`"age": {"text": "about 39 or so"}`, false}}
+		joins := []fv{{"", false}, {`"joined": {"text": "last week"}`, false}, {`"joined": {"text": "2021-06-07T00:00:00Z", "datetime": "2021-06-07T00:00:00Z"}`, true}}
+		for _, a := range ages {
+			for _, j := range joins {
+				var fs []string
+				for _, x := range []string{a.json, j.json, `"gender": {"text": "male"}`} {
+					if x != "" {
+						fs = append(fs, x)
+					}
+				}
+				cj := `{"uuid": "5d76d86b-3bb9-4d5a-b822-c9d86f5d8e4f", "id": 1234, "name": "Ann", "status": "active", "created_on": "2018-06-20T11:40:30Z", "fields": {` + strings.Join(fs, ", ") + `}}`
+				contact, err := flows.ReadContact(sa, []byte(cj), assets.IgnoreMissing)
+				if err != nil {
+					c.Count("M6-contact-rejected")
+					continue
+				}
+				for _, qc := range []struct {
+					text  string
+					typed bool
+					kind  string
+				}{{`age = ""`, a.typed, "unset"}, {`age != ""`, a.typed, "set"}, {`age > 10`, a.typed, "cmp"}, {`age = 39`, a.typed, "cmp"}, {`age <= 39`, a.typed, "cmp"}, {`fields.age >= 39`, a.typed, "cmp"},
+					{`joined = ""`, j.typed, "unset"}, {`joined != ""`, j.typed, "set"}, {`joined > 2020-01-01`, j.typed, "cmp"}, {`joined = 2021-06-07`, j.typed, "cmp"}, {`joined >= 2021-06-07`, j.typed, "cmp"},
+					{`age > 10 OR joined > 2020-01-01 OR gender = male`, true, "other"}} {
+					desc := map[string]any{"contact": json.RawMessage(cj), "query": qc.text}
+					var q *contactql.ContactQuery
+					var perr error
+					var res bool
+					if c.Guard("M6-contact", "panic:%site%", desc, func() {
+						q, perr = contactql.ParseQuery(env, qc.text, sa)
+						if perr == nil {
+							res = contactql.EvaluateQuery(env, q, contact)
+						}
+					}) {
+						continue
+					}
+					c.Count("check:M6-contact")
+					c.Eval(fmt.Sprintf("M6|%s|%v|%v", qc.text, qc.typed, res))
+					if perr != nil {
+						continue
+					}
+					want, known := res, false
+					switch qc.kind {
+					case "unset":
+						want, known = !qc.typed, true
+					case "set":
+						want, known = qc.typed, true
+					case "cmp":
+						if !qc.typed {
+							want, known = false, true // nothing to compare
+						}
+					}
+					if known && res != want {
+						desc["result"], desc["expected"] = res, want
+						c.Fail("monitor", "M6-contact", "typed-field-without-typed-value", "a number or datetime field whose stored value has only a text part was treated as having a value", desc)
+					}
 				}
 			}
 		}
